@@ -1181,6 +1181,8 @@ def replay(ctx, payload):
     elif "expect" in case:
         bad = replay_history(case)
     else:
+        if case.get("strict_int_coords"):       # replay of the integer-coordinate observation as an ordinary pair (rule S1)
+            globals()["INT_COORDS_STRICT"] = True
         for op in case.get("history", []):      # a random pair that failed in a process with a recorded history
             hist.perform(op)
         sub = core.Ctx("C16", "quick", 0)
